@@ -153,7 +153,8 @@ def _new_party(H, role, share_with=None):
         ip = ("fd53::2:%x" % H.nleg) if v6 else "10.53.2.%d" % H.nleg
     else:
         H.natt += 1
-        ip = ("fd66::%x" % H.natt) if v6 else "10.66.0.%d" % H.natt
+        # (IPv6 outsiders partly share the leading bits of the legitimate clients' addresses: same provider, same site)
+        ip = (H.rng.choice(["fd66::%x", "fd53::66:%x", "fd53:0:1::%x", "fd53::2:%x00"]) % H.natt) if v6 else "10.66.0.%d" % H.natt
     server = (scen.SERVER_IP6 if v6 else scen.SERVER_IP, 53)
     mc = mclient.ModelClient(ip, server, H.domain, H.password, random.Random(rng.getrandbits(32)),
                              qtype=H.cfg["qtype"] if rng.random() < 0.6 else rng.choice(list(proto.QTYPES.values())))
